@@ -32,6 +32,9 @@ type PDF struct {
 	LengthOverride string
 	// Tr, when non-nil, receives the abstract trace of everything written (see trace.go).
 	Tr *Trace
+	// XrefDictHook, when set, rewrites the dictionary text of the next cross-reference
+	// stream (fault injection).
+	XrefDictHook func(dict string) string
 }
 
 func NewPDF(eol string) *PDF {
@@ -105,6 +108,10 @@ type RawObjStm struct {
 	FirstText string
 	Nums      []string
 	Offsets   []string
+	// LengthText, when non-empty, replaces the /Length value of the object stream;
+	// DictRewrite, when set, rewrites its dictionary text (without brackets and /Length).
+	LengthText  string
+	DictRewrite func(dict string) string
 }
 
 // ObjStmRaw writes an object stream whose dictionary values and header pairs may be
@@ -139,6 +146,14 @@ func (p *PDF) ObjStmRaw(num int, members []ObjStmMember, flate bool, lengthRef i
 		data = Deflate(data)
 		p.Tr.deflated(data, plain)
 		dict += " /Filter /FlateDecode"
+	}
+	if raw.DictRewrite != nil {
+		dict = raw.DictRewrite(dict)
+	}
+	if raw.LengthText != "" {
+		saved := p.LengthOverride
+		p.LengthOverride = raw.LengthText
+		defer func() { p.LengthOverride = saved }()
 	}
 	off := p.Stream(num, dict, data, lengthRef)
 	if p.Tr != nil && len(p.Tr.Objs) > 0 {
@@ -255,6 +270,9 @@ func (p *PDF) XrefStream(num int, entries map[int]XEntry, trailer string, prev i
 		if predictor >= 10 {
 			dict += fmt.Sprintf(" /DecodeParms << /Predictor %d /Columns %d >>", predictor, cols)
 		}
+	}
+	if p.XrefDictHook != nil {
+		dict = p.XrefDictHook(dict)
 	}
 	p.Stream(num, dict, data, 0)
 	fmt.Fprintf(&p.Buf, "startxref%s%d%s%%%%EOF%s", p.EOL, off, p.EOL, p.EOL)
